@@ -53,7 +53,7 @@ CLAIMED = {
         level="exploration", design="§6 C04",
         technique="deterministic simulation: generated applications (host sub-apps, HTTP and WebSocket routes) served by the real App on the simulated network to 1..4 concurrent keep-alive connections; reference first-match router over an independent DP glob matcher",
         text="Seeded generation of applications and request sequences (Host absent/exact/wildcard/with port/non-matching; paths matching several, one or no routes; queries; upgrade requests) with every handler answering its identity, observed at every position of a connection's history and under concurrency and seeded schedules; the answer must be the reference router's. Dominated by seeded configuration/input generation (stated in the evidence); sampling, not enumeration.",
-        note="Trusted: the reference router and DP glob matcher; threaded runtime only; origin-form targets."),
+        note="Trusted: the reference router and DP glob matcher; origin-form targets; both runtimes (the tokio one as twin phase C04T)."),
     "C07": dict(
         level="exploration", design="§6 C07",
         technique="deterministic simulation: (a) Response serialisation checked by a strict reference grammar and parsed back over a scripted reader (every split point); (b)(c) the real Client inside the simulator against scripted conforming servers on port 80 of simulated hosts, all chunk compositions for bodies <= 6 bytes, stream segmentations, redirect chains across hosts",
@@ -129,8 +129,8 @@ def main():
         "engines": [
             {"name": "humsim", "path": "/verif/humsim", "serves_properties": sorted(CLAIMED.keys()),
              "kind_free_text": "own deterministic simulator: real OS threads under a one-baton seeded scheduler (random/sticky/PCT/rr), virtual monotonic and wall clocks, in-memory TCP with segmentation/latency/windows/FIN/RST/timeouts/short reads/EINTR, stuck detection, trace hashing; harness /verif/hv (worker processes pinned one per core, JSON scenarios, generic structural minimiser, replay files)"},
-            {"name": "humsim-tk", "path": "/verif/tk", "serves_properties": ["C01", "C02", "C20"],
-             "kind_free_text": "tokio twin of the simulator: tokio's current_thread runtime with a paused (virtual, auto-advancing) clock and rng_seed, over humsim::tokio_net (in-memory TcpListener/TcpStream with the same segmentation/latency/window/FIN/RST model, seeded spurious Pending), virtual wall clock for the Date header; the same hv harness sources built with feature tk as /verif/tk/target/release/hvtk; runs as the second phase (C01T, C02T, C20T) of `hv check C01|C02|C20`"},
+            {"name": "humsim-tk", "path": "/verif/tk", "serves_properties": ["C01", "C02", "C04", "C20"],
+             "kind_free_text": "tokio twin of the simulator: tokio's current_thread runtime with a paused (virtual, auto-advancing) clock and rng_seed, over humsim::tokio_net (in-memory TcpListener/TcpStream with the same segmentation/latency/window/FIN/RST model, seeded spurious Pending), virtual wall clock for the Date header; the same hv harness sources built with feature tk as /verif/tk/target/release/hvtk; runs as the second phase (C01T, C02T, C04T, C20T) of `hv check C01|C02|C04|C20`"},
         ],
         "checks": checks,
         "not_applicable": na,
